@@ -4,7 +4,7 @@
    stores into a name is held by that label. *)
 From Coq Require Import ZArith QArith List Bool Lia.
 From RV Require Import Base.Wire Base.Text Lang.PyAst Lang.PySem Lang.Infer Lang.InferGuard Lang.InferSpec
-  Lang.InferComp Lang.Decl Lang.DeclSpec Lang.FnSpec Lang.StmtRef Gen.InferTables
+  Lang.InferComp Lang.Decl Lang.DeclSpec Lang.FnSpec Lang.StmtRef Lang.CtlSpec Gen.InferTables
   Proofs.InferP Proofs.JoinP Proofs.DeclP Proofs.FnP Proofs.CompP.
 Import ListNotations.
 Open Scope Z_scope.
@@ -627,12 +627,20 @@ Section Ctl.
   Qed.
 
   (* ------------------------------------------------------------------ (M): the bookkeeping keeps the state well formed *)
-  Definition keeps (a a1 : acc) : Prop := incl (a_rets a) (a_rets a1) /\ a_fn a1 = a_fn a.
-  Lemma keeps_refl a : keeps a a. Proof. split; [apply incl_refl | reflexivity]. Qed.
+  Definition keeps (a a1 : acc) : Prop :=
+    incl (a_rets a) (a_rets a1) /\ a_fn a1 = a_fn a /\
+    (forall t, In t (a_rets a1) -> In t (a_rets a) \/ scalar t = true).
+  Lemma keeps_refl a : keeps a a.
+  Proof. split; [apply incl_refl | split; [reflexivity | intros t H; left; exact H]]. Qed.
   Lemma keeps_trans a b c : keeps a b -> keeps b c -> keeps a c.
-  Proof. intros [H1 H2] [H3 H4]. split; [eapply incl_tran; eassumption | congruence]. Qed.
+  Proof.
+    intros (H1 & H2 & H3) (H4 & H5 & H6). split; [eapply incl_tran; eassumption | split; [congruence|]].
+    intros t Ht. destruct (H6 t Ht) as [Hb|Hs]; [apply H3; exact Hb | right; exact Hs].
+  Qed.
   Lemma keeps_eq a b : a_rets b = a_rets a -> a_fn b = a_fn a -> keeps a b.
-  Proof. intros H1 H2. split; [rewrite H1; apply incl_refl | exact H2]. Qed.
+  Proof.
+    intros H1 H2. split; [rewrite H1; apply incl_refl | split; [exact H2|]]. rewrite H1. intros t H; left; exact H.
+  Qed.
 
   Definition PM_stmt (x : stmt) : Prop := forall L outer base s st s1 st1,
     Inv s -> wf L outer base st -> gds L s st x = true -> run_s s st x = Some (s1, st1) ->
@@ -831,7 +839,9 @@ Section Ctl.
     - (* SFor *) intros i body Hb. apply PM_for; exact Hb.
     - (* SReturn *) intros [e|] L outer base s st s1 st1 Hs Hw Hg Hrun.
       + destruct (return_step_gen L outer base s st e s1 st1 Hs Hw Hg Hrun) as (H1 & H2 & H3 & H4).
-        split; [exact H1 | split; [exact H2|]]. split; [rewrite H3; apply incl_appl, incl_refl | exact H4].
+        split; [exact H1 | split; [exact H2|]]. split; [rewrite H3; apply incl_appl, incl_refl | split; [exact H4|]].
+        rewrite H3. intros t Ht. apply in_app_iff in Ht. destruct Ht as [Ht|[<-|[]]]; [left; exact Ht | right].
+        apply (ret_ok_parts _ _ _ Hg).
       + cbn [run_stmt] in Hrun. unfold do_return in Hrun. destruct (negb (a_fn (st_acc st))); [discriminate|].
         inversion Hrun; subst. split; [exact Hs | split; [exact Hw | apply keeps_refl]].
     - (* SAssignR *) intros x r L outer base s st s1 st1 Hs Hw Hg Hrun.
@@ -1213,3 +1223,187 @@ Proof.
     inversion Hex; subst. apply Forall_app. split; [exact He1'|].
     eapply Forall_impl; [|exact He3]. intro e. apply ev_lab_decl. exact HD.
 Qed.
+
+(* ------------------------------------------------------------------ function bodies *)
+Definition fn_ev (d : fdef) (outer : list (ident * cty)) (e : tev) : Prop :=
+  match e with
+  | TAssign x v => exists c, tlookup x (fd_locals d ++ outer) = Some c /\ crepr c v
+  | TLoopVar _ v => crepr CInt v
+  | TReturn v => crepr (fd_ret d) v
+  end.
+
+Lemma static_call_ok F A : forall (d : list ident) (sp : unit * option pmap) (G : tenv) (f : ident) (sg : list ty),
+  (fun _ : unit => True) (fst sp) ->
+  (fun _ : unit => True) (fst (fst (call_st F A d sp G f sg))) /\ snd (call_st F A d sp G f sg) = resolve_call F A f sg.
+Proof. intros d sp G f sg _. unfold call_st. split; [exact I | reflexivity]. Qed.
+
+Lemma wf_fn_start L c a :
+  ctx_wf c = true -> sub_env (d_types c) L = true ->
+  wf L (lab_decls (d_types c)) (d_decl c) (mk_bstate c [] a).
+Proof.
+  intros Hc Hs. unfold ctx_wf in Hc. apply andb_true_iff in Hc as [Hc1 Hc2].
+  rewrite forallb_forall in Hc1, Hc2. unfold sub_env in Hs. rewrite forallb_forall in Hs.
+  constructor; cbn [st_ctx st_decls app].
+  - intros x t Ht. apply tlookup_In in Ht. specialize (Hs _ Ht). cbn [fst snd] in Hs.
+    destruct (tlookup x L) as [t0|]; [|discriminate]. apply ty_eqb_eq in Hs. subst. reflexivity.
+  - intro x. destruct (tlookup x (d_types c)) as [t|] eqn:E.
+    + apply tlookup_In in E. exact (Hc1 _ E).
+    + destruct (tmem x (d_decl c)) eqn:Em; [|reflexivity].
+      apply tmem_In in Em. specialize (Hc2 _ Em). rewrite E in Hc2. discriminate.
+  - intros x t Ht. unfold lab_decls. rewrite tlookup_map_snd, Ht. reflexivity.
+  - intros x c0 H. unfold lab_decls in H. rewrite tlookup_map_snd in H.
+    destruct (tlookup x (d_types c)) as [t|] eqn:E; [|discriminate]. apply tlookup_In in E. exact (Hc1 _ E).
+  - intros x [].
+  - intros x H; exact H.
+Qed.
+
+(* For the variant of a function parsed for call signature sg, whatever path the body takes (assignments, augmented
+   assignments, comprehensions, if / elif / else, while and for blocks at any depth, returns anywhere), started with its
+   parameters holding values of the signature's labels: every value stored into a name is held by the C type the variant
+   declares for it (a local, or - parameters, globals - the type of the label it had when the body started), every
+   returned value by the declared return type, and every parameter is declared from its signature label. *)
+Theorem function_body_covers :
+  forall C fe cur name params body sg fe1 p1 final d orc rho orc1 rho1 tr ret,
+    parse_function_core C fe cur name (mk_fsrc params None body) (Some sg) = Some (fe1, p1, final) ->
+    fn_guard (fn_table fe name) (fe_alias fe) C cur params sg body = true ->
+    env_lab (d_types (fn_ctx cur params sg)) rho ->
+    sig_lookup final (get_or [] (tlookup name (fe_defs fe1))) = Some d ->
+    exec_block orc rho body = Ok (orc1, rho1, tr, ret) ->
+    Forall (fn_ev d (lab_decls (d_types (fn_ctx cur params sg)))) tr /\
+    (forall p c, In (p, c) (fd_params d) -> c = cpp_type (tget (d_types (fn_ctx cur params sg)) p)).
+Proof.
+  intros C fe cur name params body sg fe1 p1 final d orc rho orc1 rho1 tr ret Hp Hg Hrho Hd Hex.
+  unfold parse_function_core in Hp. cbn [fs_params fs_body fs_ret] in Hp.
+  unfold fn_guard in Hg. apply andb_true_iff in Hg as [Har Hg].
+  rewrite Har in Hp. cbn [negb] in Hp.
+  fold (fn_table fe name) in Hp. set (F0 := fn_table fe name) in *.
+  unfold run_block_s in Hp.
+  change (mk_dctx (fold_left (fun G pl => tset G (fst (fst pl)) (snd pl)) (combine params sg) (d_types cur))
+                  (fold_left add_name (map fst params) (d_decl cur)) (d_promo cur)) with (fn_ctx cur params sg) in Hp.
+  set (c0 := fn_ctx cur params sg) in *.
+  destruct (run_block unit (call_st F0 (fe_alias fe)) C tt (mk_bstate c0 [] (mk_acc [] [] true)) body) as [[u st1]|] eqn:Erun; [|discriminate].
+  set (L := d_types (st_ctx st1)) in *.
+  apply andb_true_iff in Hg as [Hg Hgd]. apply andb_true_iff in Hg as [Hcw Hsub].
+  pose proof (wf_fn_start L c0 (mk_acc [] [] true) Hcw Hsub) as Hw0.
+  destruct (proj1 (proj2 (model_keeps_wf unit (call_st F0 (fe_alias fe)) C F0 (fe_alias fe) (fun _ => True) (static_call_ok F0 (fe_alias fe))))
+              body L _ _ tt _ u st1 I Hw0 Hgd Erun) as (_ & Hw1 & Hk1).
+  assert (Hrho0 : env_lab L rho).
+  { intros x v Hl. destruct (Hrho x v Hl) as (t & Ht & Hr). exists t. split; [apply (wf_sub _ _ _ _ Hw0); exact Ht | exact Hr]. }
+  destruct (proj1 (proj2 (values_within_labels unit (call_st F0 (fe_alias fe)) C F0 (fe_alias fe) (fun _ => True) (static_call_ok F0 (fe_alias fe))))
+              body L _ _ tt _ u st1 _ _ _ _ _ _ I Hw0 Hgd Erun Hrho0 Hex) as [_ Hev].
+  destruct (merge_return_types (a_rets (st_acc st1)) false) as [merged|] eqn:Em; [|discriminate].
+  rewrite override_none in Hp. inversion Hp; subst fe1 p1 final. clear Hp.
+  cbn [fe_defs] in Hd. rewrite tlookup_aset_same in Hd. cbn [get_or] in Hd.
+  rewrite sig_lookup_sset_same in Hd. inversion Hd; subst d. clear Hd. cbn [fd_ret fd_locals fd_params].
+  assert (Hsc : forallb scalar (a_rets (st_acc st1)) = true).
+  { rewrite forallb_forall. intros t Ht. destruct Hk1 as (_ & _ & H3). destruct (H3 t Ht) as [[]|Hs]. exact Hs. }
+  split.
+  - eapply Forall_impl; [|exact Hev]. intros e He. destruct e as [x v|i v|v]; cbn [ev_ok fn_ev fd_locals fd_ret] in He |- *.
+    + destruct He as (t & Ht & Hr). exists (cpp_type t). split; [apply (wf_decl _ _ _ _ Hw1); exact Ht | apply repr_crepr; exact Hr].
+    + apply (repr_crepr TInt). exact He.
+    + destruct He as (t & Hin & _ & Hr). apply repr_crepr. apply (sub_ty_repr t); [|exact Hr].
+      eapply merge_ret_upper; [exact Em | exact Hsc | exact Hin].
+  - intros p c Hin. apply in_map_iff in Hin as ([[p0 an] t] & Heq & Hin). cbn [fst snd] in Heq. inversion Heq; subst p c.
+    f_equal. apply in_combine_r in Hin as Hin2. apply in_combine_l in Hin as Hin1.
+    apply in_map_iff in Hin2 as ([q aq] & Ht & Hq). cbn [fst] in Ht.
+    (* the label read at the end of the body: the one the signature gave, since var_types only grew *)
+    assert (Hpos : forall l : list (ident * option text),
+              In ((p0, an), t) (combine l (map (fun pa : ident * option text => tget L (fst pa)) l)) -> t = tget L p0).
+    { clear. induction l as [|a l IH]; intro Hin; cbn in Hin; [contradiction|].
+      destruct Hin as [H|H]; [inversion H; subst; reflexivity | exact (IH H)]. }
+    rewrite (Hpos params Hin).
+    assert (Hdecl : tmem p0 (d_decl c0) = true).
+    { unfold c0, fn_ctx. cbn [d_decl]. rewrite tmem_add_names. apply orb_true_iff. right. apply tmem_In.
+      apply (in_map fst) in Hin1. exact Hin1. }
+    destruct (wf_declared_labelled _ _ _ _ _ Hw0 Hdecl) as [t0 Ht0]. cbn [st_ctx] in Ht0.
+    unfold tget. rewrite Ht0. rewrite (wf_sub _ _ _ _ Hw0 p0 t0 Ht0). reflexivity.
+Qed.
+
+(* ------------------------------------------------------------------ witnesses *)
+Lemma demo_script_nonvacuous :
+  script_guard None demo_pre demo_main = true /\
+  (exists ps, run_items None (script_items demo_pre demo_main) = Some ps /\
+              p_globals ps = [(w_a, CInt); (w_x, CFloat); (w_k, CInt); (w_y, CFloat); (w_z, CInt)] /\
+              p_loop ps = [(w_r, CInt); (w_w, CFloat)]) /\
+  (exists rho tr, exec_prog demo_oracle demo_pre demo_main = Ok ([], rho, tr, false) /\
+                  In (TAssign w_y (VFloat (17 # 2))) tr /\ In (TAssign w_w (VFloat 2)) tr /\ In (TLoopVar w_i (VInt 1)) tr).
+Proof.
+  split; [vm_compute; reflexivity|]. split.
+  - eexists. split; [vm_compute; reflexivity | split; reflexivity].
+  - eexists. eexists. split; [vm_compute; reflexivity|]. cbn. tauto.
+Qed.
+
+Lemma script_guard_boundary :
+  forallb (fun p => negb (script_guard None p BNil))
+          [first_assign_script; aug_script; branch_script; flow_script; early_read_script] = true.
+Proof. vm_compute. reflexivity. Qed.
+
+Lemma read_before_typed :
+  exists ps rho tr,
+    run_items None (script_items early_read_script BNil) = Some ps /\
+    exec_prog early_read_oracle early_read_script BNil = Ok ([], rho, tr, false) /\
+    In (TAssign w_b (VFloat (5 # 2))) tr /\
+    tlookup w_b (p_loop ps ++ p_globals ps) = Some CInt /\
+    ~ crepr CInt (VFloat (5 # 2)) /\ c_store CInt (VFloat (5 # 2)) = Some (VInt 2).
+Proof.
+  eexists. eexists. eexists. split; [vm_compute; reflexivity|]. split; [vm_compute; reflexivity|].
+  split; [cbn; tauto|]. split; [vm_compute; reflexivity|]. split; [cbn; tauto | vm_compute; reflexivity].
+Qed.
+
+Lemma frho_lab : env_lab (d_types (fn_ctx fresh_cur fparams fsig)) frho.
+Proof.
+  intros x v H. unfold frho, lookup in H. cbn [tlookup] in H.
+  destruct (text_eqb x w_p) eqn:Ea.
+  { apply text_eqb_eq in Ea. subst x. inversion H; subst. exists TInt. split; [vm_compute; reflexivity | exact I]. }
+  destruct (text_eqb x w_q) eqn:Ec; [|discriminate].
+  apply text_eqb_eq in Ec. subst x. inversion H; subst. exists TFloat. split; [vm_compute; reflexivity | exact I].
+Qed.
+
+Lemma demo_function_nonvacuous :
+  exists fe1 d rho1 tr,
+    parse_function_core None fenv0 fresh_cur w_x (mk_fsrc fparams None fbody) (Some fsig) = Some (fe1, None, fsig) /\
+    fn_guard (fn_table fenv0 w_x) (fe_alias fenv0) None fresh_cur fparams fsig fbody = true /\
+    env_lab (d_types (fn_ctx fresh_cur fparams fsig)) frho /\
+    sig_lookup fsig (get_or [] (tlookup w_x (fe_defs fe1))) = Some d /\
+    fd_ret d = CFloat /\ fd_locals d = [(w_w, CInt)] /\ fd_params d = [(w_p, CInt); (w_q, CFloat)] /\
+    exec_block foracle frho fbody = Ok ([], rho1, tr, true) /\
+    In (TReturn (VFloat 1)) tr /\ In (TAssign w_w (VInt 6)) tr.
+Proof.
+  eexists. eexists. eexists. eexists.
+  split; [vm_compute; reflexivity|]. split; [vm_compute; reflexivity|]. split; [exact frho_lab|].
+  split; [vm_compute; reflexivity|]. split; [reflexivity|]. split; [reflexivity|]. split; [reflexivity|].
+  split; [vm_compute; reflexivity|]. cbn. tauto.
+Qed.
+
+Lemma fn_guard_boundary :
+  fn_guard [(w_x, FVariants [])] [] None stale_cur [(w_p, None)] [TInt] gbody = false /\
+  fn_guard [(w_x, FVariants [])] [] None fresh_cur [(w_p, None)] [TInt] gbody = true /\
+  fn_guard [(w_x, FVariants [])] [] None fresh_cur [(w_p, None)] [TFloat] relabel_body = false.
+Proof. vm_compute. repeat split; reflexivity. Qed.
+
+
+(* ------------------------------------------------------------------ the two halves, as exported statements *)
+Theorem hoisting_keeps_declarations_coherent :
+  forall (S : Type) call C F A (Inv : S -> Prop),
+    (forall d sp G f sg, Inv (fst sp) ->
+       Inv (fst (fst (call d sp G f sg))) /\ snd (call d sp G f sg) = resolve_call F A f sg) ->
+    forall x L outer base s st s1 st1,
+      Inv s -> wf L outer base st -> gd_stmt S call C F A L s st x = true ->
+      run_stmt S call C s st x = Some (s1, st1) ->
+      Inv s1 /\ wf L outer base st1.
+Proof.
+  intros S call C F A Inv Hcall x L outer base s st s1 st1 Hs Hw Hg Hrun.
+  destruct (proj1 (model_keeps_wf S call C F A Inv Hcall) x L outer base s st s1 st1 Hs Hw Hg Hrun) as (H1 & H2 & _).
+  split; assumption.
+Qed.
+
+Theorem stored_values_within_final_labels :
+  forall (S : Type) call C F A (Inv : S -> Prop),
+    (forall d sp G f sg, Inv (fst sp) ->
+       Inv (fst (fst (call d sp G f sg))) /\ snd (call d sp G f sg) = resolve_call F A f sg) ->
+    forall x L outer base s st s1 st1 orc rho orc1 rho1 tr ret,
+      Inv s -> wf L outer base st -> gd_stmt S call C F A L s st x = true ->
+      run_stmt S call C s st x = Some (s1, st1) ->
+      env_lab L rho -> exec_stmt orc rho x = Ok (orc1, rho1, tr, ret) ->
+      env_lab L rho1 /\ Forall (ev_ok L (a_rets (st_acc st1))) tr.
+Proof. intros S call C F A Inv Hcall. exact (proj1 (values_within_labels S call C F A Inv Hcall)). Qed.
